@@ -9,12 +9,18 @@ from vmon.core import HELD, INCONCLUSIVE, OUT_OF_SCOPE, VIOLATED, BudgetExceeded
 from workloads import layout as WL
 
 
-def plan(tier, seed, quick_n=220, thorough_n=3000, quick_k=15, thorough_k=48):
+def plan(tier, seed, quick_n=220, thorough_n=3000, quick_k=15, thorough_k=48, quick_huge=(40, 60)):
     k = quick_k if tier == "quick" else thorough_k
     n = quick_n if tier == "quick" else thorough_n
     shards = [{"kind": "layout", "sub": i, "n": n} for i in range(k)]
     shards.append({"kind": "clusters"})
     shards.append({"kind": "direct-solver", "n": 150 if tier == "quick" else 3000})
+    # one layer with thousands of labels in many crowded groups (each <= 100 labels, so the recursion finding of C11 is not in
+    # play): whatever the solver does per label, it has to finish the job
+    shards.insert(0, {"kind": "huge-layer", "groups": quick_huge[0], "size": quick_huge[1]})  # first: it is the longest shard
+    if tier != "quick":
+        shards.append({"kind": "huge-layer", "groups": 52, "size": 100})
+        shards.append({"kind": "huge-layer", "groups": 100, "size": 80})
     shards.append({"kind": "insitu-exports", "n": 200 if tier == "quick" else 3000})
     return shards
 
@@ -220,6 +226,12 @@ def run_case(ctx, mon, labels, opts, tag, which, stale=None):
         except Exception:
             pass
         mon.drain()
+        if hv % 3 == 1:
+            # the caller lays out shallow copies (copy.copy) of the label objects of that finished layout
+            import copy as _copy
+
+            nodes = [_copy.copy(n) for n in nodes]
+            ctx.path("shallow-copies-of-laid-out-labels")
     if not handed_over:
         f.nodes(nodes)
     try:
@@ -343,6 +355,26 @@ def worker(ctx, shard, which):
                 break
             spec = TL.gen_spec(rng)
             insitu_case(ctx, _M, spec, which)
+    elif shard["kind"] == "huge-layer":
+        rng = ctx.rng("huge-layer")
+        g, size = shard["groups"], shard["size"]
+        # narrow labels: a group pushed inside by a bound must not reach its neighbour group, or the merged block would exceed
+        # the ~240 variables of the recursion finding (K1 of C11), which is not what this shard is about
+        w = rng.choice([10, 20, 12.5])
+        labels = []
+        for k in range(g):
+            c = 1000.0 + k * 4000.0
+            # every other group (for C03: every group) has all its labels at one data position: equally violated constraints,
+            # so the wall constraints are not settled before the rest
+            tied = k % 2 == 0 or which == "C03"
+            labels += [{"pos": c + (0.0 if tied else rng.uniform(-5, 5)), "w": w} for _ in range(size)]
+        span = g * 4000.0
+        # the data position of the last group lies right at the upper bound, that of the first right at the lower one: both
+        # groups have to be pushed inside as a whole (their wall constraints start out less violated than anything else)
+        opts = {"algorithm": "none", "minPos": 999.0, "maxPos": 1000.0 + (g - 1) * 4000.0 + 1.0, "nodeSpacing": 3}
+        rng.shuffle(labels)
+        run_case(ctx, mon, labels, opts, "huge-layer/bounded/none", which)
+        ctx.event("huge_layer_labels", len(labels))
     elif shard["kind"] == "direct-solver":
         rng = ctx.rng("direct-solver")
         for _ in range(shard["n"]):
